@@ -40,11 +40,14 @@ def exc_kind(e):
 
 
 # ---------------------------------------------------------------------------------------------- generation
-def gen_votes(rng, kind, cands):
-    """vote dict for one contest on one card"""
+MARKS = [True, True, 1, 1, "x", 3, "marked", 5, 2, "0", "no"]      # every one is truthy in python (also "0" and "no")
+
+
+def gen_votes(rng, kind, cands, w=None, blank=0.1):
+    """vote dict for one contest on one card (w: candidate weights, blank: probability of an empty vote)"""
     r = rng.random()
     if kind == "irv":
-        if r < 0.1:
+        if r < blank:
             return {}
         k = rng.randint(1, len(cands))
         order = rng.sample(cands, k)
@@ -54,9 +57,9 @@ def gen_votes(rng, kind, cands):
         if rng.random() < 0.1:
             v[rng.choice(cands)] = 0                       # a falsy rank
         return v
-    mark = lambda: rng.choice([True, True, 1, 1, "x", 3])
-    w = [4, 2, 1, 1][:len(cands)]
-    if r < 0.1:
+    mark = lambda: rng.choice(MARKS)
+    w = (w or [4, 2, 1, 1])[:len(cands)]
+    if r < blank:
         return {}
     if r < 0.72:
         return {rng.choices(cands, w)[0]: mark()}
@@ -337,6 +340,21 @@ def assort_table(asn, objs):
     return tab, errs
 
 
+def real_sample_nums(rng, n):
+    """n distinct sample numbers of the magnitude CVR.assign_sample_nums produces (256-bit integers), clustered: neighbours
+    differ by 1, 2, a few thousand or by 2^k, so that a comparison through float64 cannot separate them"""
+    base = rng.getrandbits(255) | (1 << 255) if rng.random() < 0.7 else rng.getrandbits(256)
+    offs = {0}
+    pool = [1, -1, 2, -2, 3, 1000, -4097] + [s * 2 ** k for k in (60, 100, 150, 200, 202, 203, 230) for s in (1, -1)]
+    while len(offs) < n:
+        offs.add(rng.choice(pool) if rng.random() < 0.75 else rng.getrandbits(256) - base)
+    nums = [base + o for o in offs if base + o > 0]
+    while len(nums) < n:
+        nums.append(rng.getrandbits(256) + 1)
+    rng.shuffle(nums)
+    return nums[:n]
+
+
 def differs(a, b):
     """two implementation floats differ by more than the tolerance (non-finite values differ from everything else)"""
     a, b = float(a), float(b)
@@ -400,8 +418,12 @@ def run_world(rng, spec):
     n = len(cvrs)
     nums = list(range(1, n + 1))
     wr.shuffle(nums)
-    if wr.random() < 0.1:
+    rr = wr.random()
+    if rr < 0.05:
         nums = [x * 2 ** 70 + wr.randint(0, 2 ** 32) for x in nums]
+    elif rr < 0.17:
+        nums = real_sample_nums(wr, n)
+        hit("256-bit sample numbers")
     for c, s in zip(cvrs, nums):
         c.sample_num = s
     mvr_specs = [gen_mvr(wr, spec, cons, c) for c in cvrs]
@@ -536,7 +558,8 @@ def run_world(rng, spec):
         # C03: identity over all cards under audit
         consistent = (mode == 0 or (impl_means[0] == "ok" and m_style == s_style)) and margin_given is None and not aerrs
         if consistent and con["atype"] != "POLLING":
-            v03 = oracle_identity(asn, cid, ua, cvrs, mvrs, tab, n, s_style, impl_margin)
+            v03 = oracle_margin(asn, cid, tab, cvrs, s_style, impl_margin) + \
+                oracle_identity(asn, cid, ua, cvrs, mvrs, tab, n, s_style, impl_margin)
             for w, obs in v03:
                 out["oracle"].append({"what": w, "input": wjson(), "observed": obs, "signature": "C03:" + w[:40],
                                       "prop": "C03"})
@@ -868,3 +891,173 @@ def report(ctx, res, pool, cmp_, spv, stats, facts):
     if facts:
         stats["implementation raised in set-up"] = len(facts)
     res.stats = stats
+
+
+# ---------------------------------------------------------------------------------------------- large / awkward worlds
+def oracle_margin(asn, cid, tab, cvrs, style, margin):
+    """Assertion.margin must be 2*mean(A(cvr)) - 1 over the cards under audit, recomputed from the per-card values"""
+    scope = [i for i in range(len(cvrs)) if (not style) or cvrs[i].has_contest(cid)]
+    if not scope or margin != margin or abs(margin) == float("inf"):
+        return []
+    want = 2 * sum(tab[i] for i in scope) / len(scope) - 1
+    if abs(C.frac(margin) - want) > TOL:
+        return [("Assertion.margin differs from 2*mean(A(cvr)) - 1 over the cards under audit",
+                 {"margin": margin, "recomputed": float(want), "cards_under_audit": len(scope), "use_style": style})]
+    return []
+
+
+def oracle_pool_means(asn, cid, tab, cvrs, style):
+    """every stored pool mean is the mean of A over the pooled cards of that pool that are under audit"""
+    means = asn.assorter.tally_pool_means
+    if means is None:
+        return []
+    tot, cnt = {}, {}
+    for i, c in enumerate(cvrs):
+        if c.pool and ((not style) or c.has_contest(cid)):
+            k = repr(c.tally_pool)
+            tot[k] = tot.get(k, 0) + tab[i]
+            cnt[k] = cnt.get(k, 0) + 1
+    for lab, m in means.items():
+        k = repr(lab)
+        if cnt.get(k) and (fl(m) != fl(m) or abs(C.frac(fl(m)) - tot[k] / cnt[k]) > TOL):
+            return [("a tally-pool mean differs from the mean assorter value of the pool's cards under audit",
+                     {"tally_pool": k, "stored": fl(m), "recomputed": float(tot[k] / cnt[k]), "pool_size": cnt[k]})]
+    return []
+
+
+def gen_big_world(rng):
+    """1 000 - 2 500 cards (count not a multiple of 1 000, 256, 100 ...) whose composition changes along the list:
+    vote shares, contests listed, batches (ONEAudit pools of uneven sizes) and phantoms all depend on the position."""
+    while True:
+        n = rng.randint(1000, 2500)
+        if all(n % k for k in (1000, 500, 256, 128, 100, 64, 50)):
+            break
+    s_style = rng.random() < 0.6
+    w_type = rng.choice(["ONEAUDIT", "ONEAUDIT", "CARD_COMPARISON"])
+    kinds = rng.choice([["super"], ["super", "plur"], ["plur", "super"], ["irv", "super"], ["plur"]])
+    cons = []
+    for k, kind in enumerate(kinds):
+        cands = CAND[:rng.randint(3, 4) if kind == "irv" else rng.randint(2, 4)]
+        con = {"id": f"c{k}", "kind": kind, "cands": cands, "atype": w_type, "style": s_style,
+               "share": rng.choice([F(11, 20), F(2, 3), F(2, 5), F(11, 20), F(3, 5), F(1, 3)]), "direct": rng.random() < 0.5}
+        if kind == "irv":
+            con["json"] = [{"winner": "A", "loser": "B", "assertion_type": "WINNER_ONLY"},
+                           {"winner": "A", "loser": "C", "assertion_type": "IRV_ELIMINATION", "already_eliminated": ["B"]}]
+        cons.append(con)
+    # segments with their own composition
+    nseg = rng.randint(3, 6)
+    cuts = sorted(rng.sample(range(50, n - 50), nseg - 1)) + [n]
+    segs = []
+    for _ in range(nseg):
+        w = [rng.randint(1, 9) for _ in range(4)]
+        if rng.random() < 0.6:
+            w[0] += rng.randint(3, 12)
+        segs.append({"w": w, "blank": rng.choice([0.02, 0.1, 0.3, 0.6]), "lists": [rng.choice([1.0, 0.9, 0.5, 0.15]) for _ in cons]})
+    cards, seg, batch, left, pooled_batch = [], 0, 0, 0, False
+    for i in range(n):
+        while i >= cuts[seg]:
+            seg += 1
+        if left == 0:
+            batch, left = batch + 1, rng.choice([7, 13, 37, 61, 150, 333, 410])
+            pooled_batch = rng.random() < (0.65 if w_type == "ONEAUDIT" else 0.25)
+        left -= 1
+        sg = segs[seg]
+        votes = {}
+        for k, con in enumerate(cons):
+            if rng.random() < sg["lists"][k]:
+                votes[con["id"]] = gen_votes(rng, con["kind"], con["cands"], w=sg["w"], blank=sg["blank"])
+        ph = rng.random() < 0.012
+        if ph:
+            votes = {cid: {} for cid in votes}
+        cards.append({"id": f"card{i}", "votes": votes, "phantom": ph, "tally_pool": f"b{batch}",
+                      "pool": pooled_batch if rng.random() < 0.97 else (not pooled_batch)})
+    return {"s_style": s_style, "cons": cons, "cards": cards, "ph": {"mode": "none"}, "seed": rng.randint(0, 2 ** 30)}
+
+
+def run_big_world(spec):
+    """the real code on a large world; oracles only (nothing is sent to Coq)"""
+    M, NonnegMean = lib()
+    out, st = [], {}
+
+    def hit(k, v=1):
+        st[k] = st.get(k, 0) + v
+
+    wr = C.Rng(spec["seed"])
+    cons, s_style = spec["cons"], spec["s_style"]
+    cvrs = [M.CVR(id=c["id"], votes=c["votes"], phantom=c["phantom"], tally_pool=c["tally_pool"], pool=c["pool"])
+            for c in spec["cards"]]
+    n = len(cvrs)
+    contests = build_contests(M, NonnegMean, spec, n + 10)
+    audit = M.Audit.from_dict({"seed": 1, "sim_seed": 2, "quantile": 0.8, "error_rate_1": 0.001, "error_rate_2": 0.0,
+                               "reps": 10, "strata": {"s": {"max_cards": n, "use_style": s_style, "replacement": False,
+                                                            "audit_type": cons[0]["atype"], "test": NonnegMean.alpha_mart,
+                                                            "estimator": NonnegMean.fixed_alternative_mean,
+                                                            "test_kwargs": {}}}})
+    if wr.random() < 0.8:
+        M.CVR.add_pool_contests(cvrs, M.CVR.pool_contests(cvrs))
+    # sample numbers of real magnitude; thresholds equal to one of them, neighbours at +-1, +-2^k
+    nums = [wr.getrandbits(256) + 1 for _ in range(n)]
+    order = sorted(range(n), key=lambda i: nums[i])
+    cut = wr.randint(25, 60)
+    anchor = nums[order[cut]]
+    for j, off in zip(wr.sample(range(n), 14), [1, -1, 2, -2, 2 ** 190, -2 ** 190, 2 ** 203, -2 ** 203, 1000, -1000, 3, -3,
+                                                 2 ** 140, -2 ** 140]):
+        if j != order[cut] and anchor + off > 0:
+            nums[j] = anchor + off
+    for c, x in zip(cvrs, nums):
+        c.sample_num = x
+    for con in cons:
+        contests[con["id"]].sample_threshold = anchor if wr.random() < 0.6 else wr.choice([anchor + 1, anchor - 1, anchor + 2 ** 190])
+    top = max(contests[c["id"]].sample_threshold for c in cons)
+    order = sorted(range(n), key=lambda i: cvrs[i].sample_num)
+    sample = [i for i in order if cvrs[i].sample_num <= top + 2 ** 204][:90]
+    mvr_specs = [gen_mvr(wr, spec, cons, c) if wr.random() < 0.35 else {"votes": c.votes, "phantom": False} for c in cvrs]
+    mvrs = [M.CVR(id=c.id, votes=m["votes"], phantom=m["phantom"]) for c, m in zip(cvrs, mvr_specs)]
+    s_cvrs, s_mvrs = [cvrs[i] for i in sample], [mvrs[i] for i in sample]
+    all_asns = [(con, a, asn) for con in cons for a, asn in contests[con["id"]].assertions.items()]
+    bulk = wr.random() < 0.5
+    if bulk:
+        call(lambda: M.Assertion.set_all_margins_from_cvrs(audit=audit, contests=contests, cvr_list=cvrs))
+    for con, a, asn in all_asns:
+        cid, ua = con["id"], C.frac(asn.assorter.upper_bound)
+        tab, aerrs = assort_table(asn, cvrs + mvrs)
+        rc = call(lambda: asn.assorter.set_tally_pool_means(cvr_list=cvrs, tally_pools=None, use_style=s_style))
+        if not bulk:
+            call(lambda: asn.set_margin_from_cvrs(audit, cvrs))
+        margin = fl(asn.margin) if asn.margin is not None else float("nan")
+        brief = {"cards": n, "use_style": s_style, "contest": {k: C.jsonable(v) for k, v in con.items()}, "assertion": a,
+                 "margins_from": "set_all_margins_from_cvrs" if bulk else "set_margin_from_cvrs",
+                 "world_seed": spec["seed"], "note": "large world: regenerate with compare.gen_big_world / run_big_world"}
+        found = []
+        if rc[0] == "ok" and not aerrs:
+            found += [("C03", w, o) for w, o in oracle_margin(asn, cid, tab, cvrs, s_style, margin)]
+            found += [("C03", w, o) for w, o in oracle_pool_means(asn, cid, tab, cvrs, s_style)]
+            found += [("C03", w, o) for w, o in oracle_identity(asn, cid, ua, cvrs, mvrs, tab, n, s_style, margin)]
+            hit("large world: C03 identity / margin / pool means evaluated")
+        thr = contests[cid].sample_threshold
+        r2 = call(lambda: asn.mvrs_to_data(s_mvrs, s_cvrs))
+        impl_data = ("ok", ([fl(x) for x in np.atleast_1d(r2[1][0])], fl(r2[1][1]))) if r2[0] == "ok" else ("raise", r2[1])
+        found += [("C06", w, o) for w, o in oracle_data(asn, con, cid, ua, s_mvrs, s_cvrs, thr, False, impl_data, margin,
+                                                        None, 1, aerrs, r2)]
+        hit("large world: C06 filter on 256-bit sample numbers evaluated")
+        for prop, w, o in found:
+            inp = dict(brief)
+            inp["sample"] = [{"id": c.id, "sample_num": str(c.sample_num), "lists_contest": c.has_contest(cid),
+                              "phantom": bool(c.phantom), "votes": C.jsonable(c.votes), "mvr_votes": C.jsonable(m.votes),
+                              "mvr_phantom": bool(m.phantom)} for c, m in zip(s_cvrs[:40], s_mvrs[:40])]
+            inp["sample_threshold"] = str(thr)
+            out.append({"what": w, "input": inp, "observed": o, "signature": f"{prop}:big:" + w[:40], "prop": prop})
+    hit("large worlds")
+    hit("large world cards", n)
+    return out, len(all_asns), st
+
+
+def run_big(ctx, n_worlds):
+    viol, runs, stats = [], 0, {}
+    for _ in range(n_worlds):
+        v, r, st = run_big_world(gen_big_world(ctx.rng))
+        viol += v
+        runs += r
+        for k, x in st.items():
+            stats[k] = stats.get(k, 0) + x
+    return viol, runs, stats
